@@ -61,16 +61,17 @@ Definition init_hst (st : storage) (O : oracle) : hst :=
 
 
 (* ---- administrative operations (no HTTP request) ------------------------------ *)
+Definition null_request : request := mkRequest [] GET RUnknown [] [] [] [] false.
 Definition admin (O : oracle) (a : action) : M unit :=
   let now := o_now O in
+  let E := mkEnv C cfg O null_request [] [] in
   match a with
   | ALock pid =>
       u <- st_load O pid ;;
-      st_save O (u <| u_locked := now + c_lock_duration cfg |>)
+      st_save O (lock_apply E u (LManualLock now))
   | AUnlock pid =>
       u <- st_load O pid ;;
-      st_save O (u <| u_attempts := 0 |> <| u_last := now - 2 * c_lock_window cfg |>
-                   <| u_locked := now - c_lock_duration cfg |>)
+      st_save O (lock_apply E u (LUnlock now))
   | AUpdatePassword pid pw =>
       u <- st_load O pid ;;            (* the harness loads the user it passes in *)
       (if (72 <? length pw)%nat then backend O KHash (fail ErrOther) else ret tt) ;;;
@@ -80,11 +81,11 @@ Definition admin (O : oracle) (a : action) : M unit :=
   | AStartConfirm pid =>
       u <- st_load O pid ;;
       raw <- fresh 64 ;;
-      let u' := u <| u_confirmed := false |> <| u_csel := selector_of C raw |> <| u_cver := verifier_of C raw |> in
+      let u' := u <| u_confirmed := false |> <| u_csel := selector_of E raw |> <| u_cver := verifier_of E raw |> in
       log [u_pid u] ;;;
       try (st_save O u') (fun r => match r with Ok _ => ret tt | Err _ => fail ErrOther | Panic => panic end) ;;;
       log [u_email u'] ;;;
-      send_mail [u_email u'] (bs "confirm") (mail_url cfg (bs "/confirm") true f_cnf (b64url_enc raw))
+      send_mail [u_email u'] (bs "confirm") (mail_url E (bs "/confirm") true f_cnf (b64url_enc raw))
   | ASeed u rm =>
       modify (fun h => h <| h_st := mkStorage (uput (u_pid u) u (s_users (h_st h)))
                                               (rmput (u_pid u) rm (s_rm (h_st h))) |>)
@@ -106,7 +107,7 @@ Definition step (w : world) (a : action) (O : oracle) : world * obs :=
       let b := q_browser req in
       let sess0 := jar_get b (w_sess w) in
       let cook0 := jar_get b (w_cook w) in
-      let '(r, h) := serve C cfg O req cook0 sess0 (init_hst (w_st w) O) in
+      let '(r, h) := serve (mkEnv C cfg O req cook0 sess0) (init_hst (w_st w) O) in
       let w1 := w <| w_st := h_st h |> in
       let w2 := match h_out h with
                 | Some wr => w1 <| w_sess := jar_set b (apply_events sess0 (w_sev wr)) (w_sess w1) |>
